@@ -12,17 +12,21 @@ import (
 const vpMaxGen = 3
 
 // VpH_C16_run: the staged picker run to exhaustion. The generators, the pseudo-legality test and the rankers are
-// replaced by their contracts (engine-side): GenNoisy / GenNotNoisy append arbitrary duplicate-free, mutually
-// disjoint lists of at most nn / nq moves (what C01/C05 establish), IsPseudoLegal(hash move) holds iff the hash move
-// is one of them (C05), noisy ranks lie in the capture bands and quiet ranks in the quiet band (the band obligations
-// of this check). Then: every generated move is yielded exactly once and nothing else is; the hash move comes first
-// iff it is pseudo-legal; YieldedMoves() is the yielded prefix.
+// replaced by their contracts (engine-side): GenNoisy appends an arbitrary duplicate-free list of at most nn moves
+// that are captures or promotions on this board (VpNoisy, established for the real generator by VpH_C16_split),
+// GenNotNoisy an arbitrary duplicate-free list of at most nq moves that are not; IsPseudoLegal(hash move) holds iff
+// the hash move is one of them (C05); noisy ranks lie in the capture bands and quiet ranks in the quiet band (the band
+// obligations of this check). Then: every generated move is yielded exactly once and nothing else is; the hash move
+// comes first iff it is pseudo-legal; YieldedMoves() is the yielded prefix.
 func VpH_C16_run() {
 	b := &board.Board{}
 	for sq := range b.SquaresToPiece {
-		b.SquaresToPiece[sq] = Piece(vp.BitsI("sqpiece", sq, 3))
+		p := Piece(vp.BitsI("sqpiece", sq, 3))
+		vp.Assume(p <= King)
+		b.SquaresToPiece[sq] = p
 	}
 	b.EnPassant = Square(vp.Bits("ep", 6))
+	b.STM = Color(vp.Bits("stm", 1))
 	ms := move.NewStore()
 	ms.Push()
 	ranker := heur.NewMoveRanker()
@@ -33,26 +37,20 @@ func VpH_C16_run() {
 	var yielded [2*vpMaxGen + 2]move.Move
 	n := 0
 	for k := 0; k < 2*vpMaxGen+2; k++ {
-		if p.Next() {
-			vp.Cover("in-loop-yield")
-			yielded[n] = p.Move().Move
-			n++
-			vp.Assert(len(p.YieldedMoves()) == n, "yielded-prefix-grows-by-one")
-		} else {
-			vp.Cover("in-loop-break")
+		if !p.Next() {
 			break
 		}
+		yielded[k] = p.Move().Move
+		n = k + 1
+		vp.Assert(len(p.YieldedMoves()) == n, "yielded-prefix-grows-by-one")
 	}
-	vp.Cover("after-loop")
 	vp.Assert(!p.Next(), "exhausted-picker-stays-exhausted")
-	vp.Cover("after-exhausted")
 
 	// the generated lists as the contracts produced them
 	var gen [2 * vpMaxGen]move.Move
-	g := 0
-	for i := 0; i < vpGenCount(); i++ {
-		gen[g] = vpGenMove(i)
-		g++
+	g := vpGenCount()
+	for i := 0; i < 2*vpMaxGen; i++ {
+		gen[i] = vpGenMove(i)
 	}
 	hashIsGen := false
 	for i := 0; i < 2*vpMaxGen; i++ {
@@ -60,7 +58,6 @@ func VpH_C16_run() {
 			hashIsGen = true
 		}
 	}
-	vp.Cover("after-gen")
 	vp.Assert(n == g, "as-many-moves-yielded-as-generated")
 	for i := 0; i < 2*vpMaxGen; i++ {
 		if i < g {
